@@ -199,6 +199,8 @@ Definition nl (m : mode) (depth : nat) : list N :=
   end.
 Definition colon (m : mode) : list N := match m with None => [58] | Some _ => [58; 32] end.
 
+Definition c_max_depth : nat := Z.to_nat enc_maxNestingDepth.
+
 (* output is the list of bytes appended to dst *)
 Fixpoint c_value (m : mode) (escape : bool) (fuel : nat) (depth : nat) (l : list N) : cres (list N * list N) :=
   match fuel with
@@ -208,7 +210,8 @@ Fixpoint c_value (m : mode) (escape : bool) (fuel : nat) (depth : nat) (l : list
       | [] => CStuck
       | c :: r =>
           if c =? 123 then
-            (* compactObject / indentObject *)
+            (* compactObject / indentObject: the nesting limit comes first *)
+            if Nat.ltb c_max_depth (S depth) then CErr else
             match c_skip_ws r with
             | [] => CStuck
             | c1 :: r1 =>
@@ -220,6 +223,7 @@ Fixpoint c_value (m : mode) (escape : bool) (fuel : nat) (depth : nat) (l : list
             end
           else if c =? 125 then CErr
           else if c =? 91 then
+            if Nat.ltb c_max_depth (S depth) then CErr else
             match c_skip_ws r with
             | [] => CStuck
             | c1 :: r1 =>
